@@ -295,42 +295,71 @@ def ob_cache(ctx, res):
     if undec:
         return
     res.ok(g, "block cache: hit -> clone; miss -> read_block_data(info, reader, block), insert(*block, clone), return; only get/insert/len/clear/clone used")
-    # node cache: Occupied -> clone of the stored vec; Vacant -> read_node, insert clone
+    # node cache: Occupied -> the stored items reach nodes_overlapping (all that can overlap the query); Vacant -> read_node, insert clone
     b = ctx.ast.fn(R, "blocks_for_cir_tree_node", impl="CachedBBIFileRead")
+
+    def item(s_, e_, tag):
+        return {"__type": "Item", "start_chrom_ix": 0, "start_base": s_, "end_chrom_ix": 0, "end_base": e_, "data_offset": tag, "data_size": 1}
+    QC, QS, QE = 0, 50, 150
+
+    def keep(items):
+        # the items of a node that can overlap the query (what nodes_overlapping selects): shares or touches [QS, QE] on chromosome QC
+        return [x["data_offset"] for x in items if isinstance(x, dict) and x["end_base"] >= QS and x["start_base"] <= QE]
     for kind, side in (("Leaf", "Left"), ("NonLeaf", "Right")):
         for hit in (True, False):
             for fails in (False, True):
                 log = []
                 ENTRY = {"__ref": True, "what": "entry"}
+                STORED = [item(0, 60, "s1"), item(60, 140, "s2"), item(140, 300, "s3"), item(300, 400, "s4")]
+                FRESH = [item(0, 60, "r1"), item(60, 140, "r2"), item(140, 300, "r3")]
+                box = []
 
-                def method(m, recv, args, log=log, ENTRY=ENTRY, hit=hit, kind=kind, side=side):
+                def method(m, recv, args, log=log, ENTRY=ENTRY, hit=hit, kind=kind, side=side, STORED=STORED, box=box):
                     if recv == "NODEMAP" and m == "entry" and len(args) == 1:
                         log.append(("entry", args[0]))
                         return ("variant", "Occupied" if hit else "Vacant", [ENTRY])
                     if recv == "NODEMAP" and m in ("get", "get_mut") and len(args) == 1:
                         log.append(("entry", args[0]))
-                        return ("some", ("variant", side, [["s1", "s2"]])) if hit else None
+                        return ("some", ("variant", side, [list(STORED)])) if hit else None
                     if recv == "NODEMAP" and m == "insert" and len(args) == 2:
                         log.append(("insert", args[0], args[1]))
                         return None
                     if recv is ENTRY and m == "get" and not args:
-                        return ("variant", side, [["s1", "s2"]])
+                        return ("variant", side, [list(STORED)])
                     if recv is ENTRY and m == "insert" and len(args) == 1:
                         log.append(("insert", "OFF", args[0]))
                         return None
                     if isinstance(recv, list) and m in ("into_iter", "iter", "collect", "cloned", "copied", "to_vec") and not args:
                         return list(recv)
+                    if isinstance(recv, list) and m == "len" and not args:
+                        return len(recv)
+                    if isinstance(recv, list) and m == "partition_point" and len(args) == 1:
+                        k_ = 0
+                        while k_ < len(recv) and box[0].apply_closure(args[0], [recv[k_]]):
+                            k_ += 1
+                        return k_
+                    if isinstance(recv, list) and m in ("skip_while", "take_while", "filter") and len(args) == 1:
+                        if m == "filter":
+                            return [x for x in recv if box[0].apply_closure(args[0], [x])]
+                        k_ = 0
+                        while k_ < len(recv) and box[0].apply_closure(args[0], [recv[k_]]):
+                            k_ += 1
+                        return recv[k_:] if m == "skip_while" else recv[:k_]
+                    if isinstance(recv, list) and m in ("skip", "take") and len(args) == 1 and isinstance(args[0], int):
+                        return recv[args[0]:] if m == "skip" else recv[:args[0]]
                     raise NotPure("method %s" % m)
 
-                def read_node(*args, fails=fails, log=log, kind=kind):
+                def read_node(*args, fails=fails, log=log, kind=kind, FRESH=FRESH):
                     log.append(("read_node",) + tuple(args))
-                    return ("err", "E") if fails else ("some", ("variant", kind, [["r1", "r2", "r3"]]))
+                    return ("err", "E") if fails else ("some", ("variant", kind, [list(FRESH)]))
 
                 def overlapping(*args):
                     return ("OVERLAPPING",) + tuple(args)
                 me = {"__ref": True, "cir_tree_node_map": "NODEMAP", "read": "READ", "block_data": "BLOCKS"}
+                it_ = Interp(ctx.ast, R, extern={"None": None, "method": method, "read_node": read_node, "nodes_overlapping": overlapping})
+                box.append(it_)
                 try:
-                    got = Interp(ctx.ast, R, extern={"None": None, "method": method, "read_node": read_node, "nodes_overlapping": overlapping}).call(b, [me, "ENDIAN", "OFF", "C", "S", "E"])
+                    got = it_.call(b, [me, "ENDIAN", "OFF", QC, QS, QE])
                 except NotPure as e:
                     res.undecided("cache/node", b, "the caching blocks_for_cir_tree_node is outside the fragment the rule evaluates (%s)" % e)
                     return
@@ -339,9 +368,22 @@ def ob_cache(ctx, res):
                     res.fail("cache/node", b, "node cache must be keyed by node_offset; %s -> effects %s" % (case, log))
                     return
                 reads = [e for e in log if e[0] == "read_node"]
+
+                def passed(g):
+                    # ("some", ("OVERLAPPING", ("variant", kind, [items]), C, S, E)) -> (items, query) or None
+                    if isinstance(g, tuple) and len(g) == 2 and g[0] == "some" and isinstance(g[1], tuple) and len(g[1]) == 5 and g[1][0] == "OVERLAPPING":
+                        v_ = g[1][1]
+                        if isinstance(v_, tuple) and len(v_) == 3 and v_[0] == "variant" and v_[1] == kind and len(v_[2]) == 1 and isinstance(v_[2][0], list):
+                            return v_[2][0], tuple(g[1][2:])
+                    return None
                 if hit:
-                    if reads or any(e[0] == "insert" for e in log) or got != ("some", ("OVERLAPPING", ("variant", kind, [["s1", "s2"]]), "C", "S", "E")):
-                        res.fail("cache/node", b, "a cached node must be iterated from a clone of the stored items, with the query unchanged and nothing read; %s -> %s, effects %s" % (case, got, log))
+                    pz = passed(got)
+                    if reads or any(e[0] == "insert" for e in log) or pz is None or pz[1] != (QC, QS, QE):
+                        res.fail("cache/node", b, "a cached node must be iterated from the stored items, with the query unchanged and nothing read; %s -> %s, effects %s" % (case, str(got)[:200], log))
+                        return
+                    if keep(pz[0]) != keep(STORED):
+                        res.fail("cache/node", b, "a cached node hands %s to nodes_overlapping for the query %s-%s; the stored items that can overlap it are %s (items [start,end): s1 [0,60) s2 [60,140) "
+                                                  "s3 [140,300) s4 [300,400)): a second query through the same reader loses blocks the first one found" % (keep(pz[0]), QS, QE, keep(STORED)))
                         return
                     continue
                 if reads != [("read_node", "READ", "OFF", "ENDIAN")]:
@@ -353,8 +395,11 @@ def ob_cache(ctx, res):
                         return
                     continue
                 ins = [e for e in log if e[0] == "insert"]
-                if ins != [("insert", "OFF", ("variant", side, [["r1", "r2", "r3"]]))] or got != ("some", ("OVERLAPPING", ("variant", kind, [["r1", "r2", "r3"]]), "C", "S", "E")):
-                    res.fail("cache/node", b, "an uncached node's items must be stored (all of them, under node_offset) and iterated, with the query unchanged; %s -> %s, effects %s" % (case, got, log))
+                pz = passed(got)
+                stored_ok = len(ins) == 1 and ins[0][:2] == ("insert", "OFF") and isinstance(ins[0][2], tuple) and ins[0][2][:2] == ("variant", side) \
+                    and [x.get("data_offset") for x in ins[0][2][2][0]] == ["r1", "r2", "r3"]
+                if not stored_ok or pz is None or pz[1] != (QC, QS, QE) or keep(pz[0]) != keep(FRESH):
+                    res.fail("cache/node", b, "an uncached node's items must be stored (all of them, under node_offset) and iterated, with the query unchanged; %s -> %s, effects %s" % (case, str(got)[:200], str(log)[:300]))
                     return
     res.ok(b, "node cache keyed by node_offset: Occupied -> clone iterated; Vacant -> read_node result collected, clone inserted")
 
